@@ -1,3 +1,4 @@
+-- properties: C04 C11
 /-
   C04 / C11 — RF64 files (SfModel/Rf64.lean), write side: the two header forms, and what the model shows about them.
   The session model is tied to the code by the correspondence (every store snapshot of every session compared);
